@@ -134,7 +134,7 @@ class Python(object):
             self._execute({"import": {"from": module_name, "vars": var_names}})
 
     def set(self, var_name, value):
-        self._execute({"set": {var_name, value}})
+        self._execute({"set": {var_name: value}})
 
     def get(self, var_name):
         return self._execute({"get": var_name})
